@@ -60,6 +60,9 @@ def sched_catalogue(prop, tier, drv=0, precs_extra=True, light=False):
     # K6 off-diagonal pivots (generic values, u=1) vs diagonal (vk=1); K7 singleton supernodes, double pruning
     j.append(sjob(prop, 'dense4', 2, b2, drv=drv, ms=1)); j.append(sjob(prop, 'dense5', 2, 1 if q else 2, drv=drv, ms=1)); j.append(sjob(prop, 'dense4', 3, 1 if q else 2, drv=drv, ms=1))
     j.append(sjob(prop, 'dense4', 2, b2, drv=drv, ms=4, vk=1, u=0.1))
+    # K7b double pruning (found by the first end-to-end thorough run, repaired in /repo): columns 2 and 3 of a dense matrix with off-diagonal pivots both prune supernode 1
+    if not (light and q):
+        j.append(sjob(prop, 'dense5', 2, 2, drv=drv, ms=1, vk=8))
     # K8 independent trees
     j.append(sjob(prop, 'two6', 2, b2 if not q else 1, drv=drv)); j.append(sjob(prop, 'two6', 3, 1, drv=drv)); j.append(sjob(prop, 'two8', 3, 1, drv=drv))
     # K9 zero pivot in the middle (explicit zeros: structure present)
@@ -92,7 +95,7 @@ def sched_catalogue(prop, tier, drv=0, precs_extra=True, light=False):
                 if bits >> k & 1: pat[off[k]] = '1'
             j.append(sjob(prop, 'pat:3:' + ''.join(pat), 2, 1, drv=drv))
         j.append(sjob(prop, 'dense4', 2, 3, drv=drv, ms=1)); j.append(sjob(prop, 'fork3', 2, 3, drv=drv)); j.append(sjob(prop, 'chain4', 2, 3, drv=drv))
-        j.append(sjob(prop, 'fork4', 3, 2, drv=drv)); j.append(sjob(prop, 'tree7', 3, 2, drv=drv))
+        j.append(sjob(prop, 'fork4', 3, 2, drv=drv))       # tree7 P=3 bound 2 was measured at > 1.1 x 10^6 executions (> 20 min, unfinished): not registered
     return j
 
 
